@@ -155,6 +155,8 @@ def run_case(c):
     sink, source = dut.fifo.sink, dut.fifo.source
     has_fsm = c["bypass"]
 
+    scr = r.random() < 0.5
+
     def driver():
         yield "passive"
         valid = ready = 0
@@ -196,6 +198,8 @@ def run_case(c):
                 valid = 1
             elif not valid:
                 stmts.append(sink.valid.eq(0))
+                if scr:
+                    stmts.append(sink.data.eq(r.getrandbits(dw)))       # payload is don't-care while valid is low
             nr = 1 if r.random() < pr else 0
             if nr != ready:
                 stmts.append(source.ready.eq(nr))
